@@ -1,26 +1,38 @@
 ----------------------------- MODULE Trace_Xye -----------------------------
-(* Judges recorded executions of the real save_xye / load_xye.  One NDJSON line per call  *)
-(* of save_xye (followed by load_xye when a file was written):                            *)
-(*   tid, cfg (as in XyeDefs; header already mapped to the symbols a # LF SP digit),       *)
-(*   out "file" | "raised", lines = the written text split into lines and mapped to        *)
-(*   symbols (numbers -> value-ids by exact bit equality for X and Y, <= 4 ulp of the      *)
-(*   variance for E^2; unknown numbers -> 8000000), loaded = [ok, rows] of value-ids of   *)
-(*   the loaded DataArray (variances <= 4 ulp).                                           *)
-(* Every line gets a verdict; a rejected line prints <<"REJECT", line, tid, clause, kind>>. *)
+(* Judges recorded executions of the real save_xye / load_xye.  One NDJSON line per call:  *)
+(*   op "save": tid, cfg (as in XyeDefs; header already mapped to the symbols a # LF SP    *)
+(*      digit CR), path (0 = a buffer / nothing that can be loaded again later, k >= 1 =   *)
+(*      the k-th path of the run), out "file" | "raised", lines = the written text split    *)
+(*      into lines and mapped to symbols (numbers -> value-ids by exact bit equality for X  *)
+(*      and Y, <= 4 ulp of the variance for E^2; unknown numbers -> 8000000), loaded =      *)
+(*      [ok, rows] of value-ids of the DataArray load_xye returned for this file           *)
+(*      (variances <= 4 ulp), req / got = what load_xye was asked for (dimension,           *)
+(*      coordinate name, units) and what the returned DataArray has.                        *)
+(*   op "load": tid, path >= 1, ds = tid of the save whose numbers the harness used to map  *)
+(*      the loaded numbers to ids, loaded, req, got: a LATER load of a path, after other    *)
+(*      saves and loads (XyeStore).                                                         *)
+(* The judge keeps, as XyeStore does, what the last save to every path wrote: fs[p] =       *)
+(* [tid, nrows, chosen] (tid = -1: nothing known).  Every line gets a verdict; a rejected  *)
+(* line prints <<"REJECT", line, tid, clause, kind>>.                                       *)
 EXTENDS XyeDefs, TLC, Json, IOUtils
 
 Tr == ndJsonDeserialize(IOEnv.TRACE_FILE)
+NPaths == 16
 
-VARIABLES l, nbad
-tvars == <<l, nbad>>
+VARIABLES l, nbad, fs
+tvars == <<l, nbad, fs>>
 
 Cfg(e) == [hasvar |-> e.cfg.hasvar, ndim |-> e.cfg.ndim, masks |-> e.cfg.masks, coords |-> ToSet(e.cfg.coords),
            arg |-> e.cfg.arg, edges |-> ToSet(e.cfg.edges), nrows |-> e.cfg.nrows, header |-> e.cfg.header]
 
+Unknown == [tid |-> -1, nrows |-> 0, chosen |-> -1]
+
+MetaOK(e) == e.got = ExpectedMeta(e.req)
+
 (* Which text the comment lines carry is not part of the property ("header text never    *)
 (* interferes with the table"): only that every line before the table is a comment and    *)
 (* that the table is exactly the data (WellFormed, DataLine, Load).                        *)
-Judge(e) ==
+JudgeSave(e) ==
     LET c == Cfg(e)  d == Decide(c)
         rl == ReaderLines(e.lines)      \* evaluated once per event (ReaderLines is idempotent)
     IN
@@ -31,14 +43,38 @@ Judge(e) ==
     ELSE IF Load(rl) # [ok |-> TRUE, rows |-> Expected(c)] THEN "table_not_readable_by_specified_reader"
     ELSE IF ~e.loaded.ok THEN "load_failed"
     ELSE IF e.loaded.rows # Expected(c) THEN "loaded_data_differs"
+    ELSE IF ~MetaOK(e) THEN "loaded_names_or_units_differ"
     ELSE "ok"
 
-TInit == l = 1 /\ nbad = 0
+(* a later load of path p: the path holds what the last save to it wrote *)
+JudgeLoad(e) ==
+    LET f == fs[e.path] IN
+    IF f.tid # e.ds THEN "harness_bookkeeping_differs_from_the_model"
+    ELSE IF ~e.loaded.ok THEN "later_load_failed"
+    ELSE IF e.loaded.rows # ExpectedRows(f.nrows, f.chosen) THEN "later_load_differs"
+    ELSE IF ~MetaOK(e) THEN "later_load_names_or_units_differ"
+    ELSE "ok"
+
+Judge(e) == IF e.op = "load" THEN JudgeLoad(e) ELSE JudgeSave(e)
+
+(* the store after the event: a save that produced a file defines the content of its path,  *)
+(* a save that raised leaves it unknown (nothing is demanded about the file then)           *)
+After(e) ==
+    IF e.op = "save" /\ e.path >= 1
+    THEN [fs EXCEPT ![e.path] = IF e.out = "file" /\ Decide(Cfg(e)) = "write"
+                                THEN [tid |-> e.tid, nrows |-> e.cfg.nrows, chosen |-> Chosen(Cfg(e))]
+                                ELSE Unknown]
+    ELSE fs
+
+Kind(e) == IF e.op = "load" THEN "write" ELSE Decide(Cfg(e))
+
+TInit == l = 1 /\ nbad = 0 /\ fs = [p \in 1..NPaths |-> Unknown]
 TNext == /\ l <= Len(Tr)
          /\ l' = l + 1
+         /\ fs' = After(Tr[l])
          /\ LET v == Judge(Tr[l]) IN
             /\ nbad' = IF v = "ok" THEN nbad ELSE nbad + 1
-            /\ (v = "ok" \/ PrintT(<<"REJECT", l, Tr[l].tid, v, Decide(Cfg(Tr[l]))>>))
+            /\ (v = "ok" \/ PrintT(<<"REJECT", l, Tr[l].tid, v, Kind(Tr[l])>>))
 TSpec == TInit /\ [][TNext]_tvars
 Done == (l = Len(Tr) + 1) => PrintT(<<"DONE", l - 1, nbad>>)
 =============================================================================
